@@ -39,6 +39,7 @@ HOLDER OR OTHER PARTY HAS BEEN ADVISED OF THE POSSIBILITY OF SUCH DAMAGES.
 
 //-----------------------------------------------------------------------------------------
 #include <iostream>
+#include <type_traits>
 #include <string>
 #include <memory>
 #include <mutex>
@@ -625,16 +626,16 @@ inline bool get_value(const std::string& source)
 template<typename T>
 T fast_atoi(const char *str, const char term='\0')
 {
-	T retval(0);
-	if (*str == '-')	// accumulate downwards so that the most negative value does not overflow
-	{
-		for (++str; *str != term; ++str)
-			retval = retval * 10 - (*str - '0');
-		return retval;
-	}
+	// accumulate in the unsigned counterpart: a text outside the range of T (or with non-digits) wraps around
+	// instead of overflowing a signed type, which is undefined behaviour; in-range values are unaffected
+	using U = typename std::make_unsigned<T>::type;
+	U retval(0);
+	const bool neg(*str == '-');
+	if (neg)
+		++str;
 	for (; *str != term; ++str)
-		retval = retval * 10 + (*str - '0');
-	return retval;
+		retval = static_cast<U>(retval * 10u + static_cast<U>(*str - '0'));
+	return static_cast<T>(neg ? static_cast<U>(0u - retval) : retval);
 }
 
 //----------------------------------------------------------------------------------------
